@@ -88,7 +88,7 @@ def correspond_sem(res, n):
 
 
 def run(res):
-    res.proof_step('Props/C10.v', extra_targets=['Model/LaxSem.vo', 'Model/Pool.vo'], kernels_needed=['K_laxsem', 'G_laxsem_atomic', 'G_pool_shape'])
+    res.proof_step('Props/C10.v', extra_targets=['Model/LaxSem.vo', 'Model/Pool.vo'], kernels_needed=['K_laxsem', 'G_laxsem_atomic', 'G_pool_shape', 'G_pool_pins'])
     n = 400 if res.tier == 'quick' else 20000
     if res.broken:
         n = max(n, 5000)
